@@ -51,7 +51,9 @@ def jobs(tier, seed):
             pre += '  __CPROVER_havoc_object(BITBASE);\n'
         if nm == 'KQKRPs':
             pre += '  for (uint32_t s = 0; s < 64; s++) KING_MASK[s] = spec_king(s);   /* C11: geom/rays_masks */\n'
-        h = ND + ('struct Position W_P;\nvoid h_sym(void) { struct Position P = nondet_Position(); __CPROVER_assume(wf_pos(&P)); W_P = P;\n' + pre +
+        h = ND + ('struct Position W_P;\nvoid h_sym(void) { struct Position P = nondet_Position(); __CPROVER_assume(wf_pos(&P)); W_P = P;\n'
+                  '  /* the property excludes positions that are drawn by material (bare kings or a single minor piece) */\n'
+                  '  { int minors = P._piece_count[2] + P._piece_count[3] + P._piece_count[8] + P._piece_count[9]; int others = P._piece_count[1] + P._piece_count[4] + P._piece_count[5] + P._piece_count[7] + P._piece_count[10] + P._piece_count[11]; __CPROVER_assume(!(others == 0 && minors <= 1)); }\n' + pre +
                   '  struct Position M; mirror_pos(&P, &M);\n'
                   '  struct Endgame_%d EW = {WHITE, BLACK, W_KING, B_KING}, EB = {BLACK, WHITE, B_KING, W_KING};\n'
                   '  _Bool aw = %s(&EW, &P), ab = %s(&EB, &M), bw = %s(&EB, &P);\n'
